@@ -68,7 +68,7 @@ Definition read_message_spec (magic : N) (st : bytes) : @fres E :=
   if negb (hdr_magic st =? magic) then @FErr E FMagic else
   if MAX_PAYLOAD_LEN <? hdr_len st then @FErr E FLength else
   let body := skipn MSG_HDR_LEN st in
-  if (length body <? N.to_nat (hdr_len st))%nat then @FErr E FShortPayload else
+  if N.of_nat (length body) <? hdr_len st then @FErr E FShortPayload else
   let payload := firstn (N.to_nat (hdr_len st)) body in
   if negb (bytes_eqb (checksum (x_hash X) payload) (hdr_cks st)) then @FErr E FChecksum else
   match decode_payload X (trim_right0 (hdr_cmd st)) payload with
@@ -125,7 +125,8 @@ Theorem rejects_truncated magic st :
 Proof.
   intros L H1 H2 H3. rewrite read_message_eq. unfold read_message_spec.
   apply Nat.ltb_ge in L. rewrite L. apply N.eqb_eq in H1. rewrite H1. apply N.ltb_ge in H2. rewrite H2.
-  cbn [negb]. rewrite skipn_length. apply Nat.ltb_lt in H3. rewrite H3. reflexivity.
+  cbn [negb]. rewrite skipn_length.
+  assert (T : N.of_nat (length st - MSG_HDR_LEN) <? hdr_len st = true) by (apply N.ltb_lt; lia). rewrite T. reflexivity.
 Qed.
 
 Theorem rejects_bad_checksum magic st :
@@ -136,7 +137,8 @@ Theorem rejects_bad_checksum magic st :
 Proof.
   intros L H1 H2 H3 H4. rewrite read_message_eq. unfold read_message_spec.
   apply Nat.ltb_ge in L. rewrite L. apply N.eqb_eq in H1. rewrite H1. apply N.ltb_ge in H2. rewrite H2.
-  cbn [negb]. rewrite skipn_length. apply Nat.ltb_ge in H3. rewrite H3.
+  cbn [negb]. rewrite skipn_length.
+  assert (T0 : N.of_nat (length st - MSG_HDR_LEN) <? hdr_len st = false) by (apply N.ltb_ge; lia). rewrite T0.
   destruct (bytes_eqb _ _) eqn:T; [apply bytes_eqb_eq in T; contradiction|reflexivity].
 Qed.
 
@@ -163,7 +165,7 @@ Proof.
   destruct (length st <? MSG_HDR_LEN)%nat eqn:L; [discriminate|]. apply Nat.ltb_ge in L.
   destruct (hdr_magic st =? magic) eqn:M; [|discriminate]. apply N.eqb_eq in M. cbn [negb].
   destruct (MAX_PAYLOAD_LEN <? hdr_len st) eqn:T; [discriminate|]. apply N.ltb_ge in T.
-  destruct (length (skipn MSG_HDR_LEN st) <? N.to_nat (hdr_len st))%nat eqn:B; [discriminate|]. apply Nat.ltb_ge in B.
+  destruct (N.of_nat (length (skipn MSG_HDR_LEN st)) <? hdr_len st) eqn:B; [discriminate|]. apply N.ltb_ge in B.
   destruct (bytes_eqb _ _) eqn:C; [|discriminate]. apply bytes_eqb_eq in C. cbn [negb].
   destruct (decode_payload X _ _) as [[[m0 s'] lf0]|e] eqn:D; [|discriminate].
   intro H. inversion H; subst. repeat split; try assumption; try reflexivity.
